@@ -51,6 +51,19 @@ Theorem C12_parent_or_empty : forall v, none_of [QM; HASH] v -> pq_parent_or_emp
 Proof. exact parent_or_empty_spec. Qed.
 Print Assumptions C12_parent_or_empty.
 
+(* first(): the first piece of the split; file_name(): the last piece unless it is empty *)
+Theorem C12_first : forall v, none_of [QM; HASH] v -> option_map (slice v) (pq_first v) = hd_error (segs v).
+Proof. exact pq_first_spec. Qed.
+Print Assumptions C12_first.
+Theorem C12_file_name : forall v, none_of [QM; HASH] v ->
+  match pq_file_name v with
+  | Some (Some r) => last_opt (segs v) = Some (slice v r) /\ snd r <> fst r
+  | Some None => match last_opt (segs v) with Some x => x = [] | None => True end
+  | None => False
+  end.
+Proof. exact pq_file_name_spec. Qed.
+Print Assumptions C12_file_name.
+
 (* directory(): for EVERY byte string, the text up to and including the last '/' ("" when there is none) *)
 Theorem C12_directory : forall p, pslice_text p (pq_directory p) = dir_of p.
 Proof. intros p. exact (proj1 (directory_is_dir_of p)). Qed.
